@@ -359,7 +359,20 @@ def run(P, C, tier):
             if arm_of(pm, bi) == "RoomNodeWrite":
                 src = pm.call_args(bi, expand_vars=True)[1]
                 p = mir.has_call(src, r"RoomNode::parse$")
-                C.ob("R4", "loaded-is-written", p is not None and field_path(p[2][0]).endswith(".room"), pm.loc(bi), "add_room receives parse() of the written RoomNode")
+                okp = p is not None and field_path(p[2][0]).endswith(".room")
+                if not okp:
+                    # `res.and_then(|_| query.room.parse())`: the parse runs in the closure
+                    c_ = mir.has_call(src, r"Result.*::and_then$")
+                    if c_ is not None and len(c_[2]) == 2:
+                        clo = strip_refs(c_[2][1])
+                        cb_ = P.bodies.get(clo[2]) if clo[0] == "aggr" and clo[1] == "closure" else None
+                        if cb_ is not None:
+                            for pb_, pt_ in cb_.calls_to(r"RoomNode::parse$"):
+                                recv_ = cb_.call_args(pb_, expand_vars=True)[0]
+                                caps = [field_path(strip_refs(x)) for x in (clo[4] if len(clo) > 4 else [])]
+                                if field_path(recv_).endswith(".room") or (mir.strip(recv_)[0] == "upvar" and any(x.endswith(".room") for x in caps)):
+                                    okp = True
+                C.ob("R4", "loaded-is-written", okp, pm.loc(bi), "add_room receives parse() of the written RoomNode")
     except mir.MissingAnchor as e:
         C.anchor_missing("R4", "process_message", e)
     r5_new_room_history(P, C)
